@@ -16,10 +16,12 @@ Import ListNotations.
 Local Open Scope Z_scope.
 
 (* ------------------------------------------------------------------ reader oracle *)
-Inductive rev := RAvail (k : Z) | RAgain | REof | RErr.
+Inductive errno := EAGAIN | EPROTO | ECONNRESET | EIO | EINTR.
+(* RErr e: read() returns -1 with errno e (ECONNRESET, EINTR, ...: anything but EAGAIN) *)
+Inductive rev := RAvail (k : Z) | RAgain | REof | RErr (e : errno).
 Record io := mkIO { io_stream : list Z; io_sched : list rev }.
-Inductive rres := RRData (d : list Z) | RRAgain | RREof | RRErr.
-Inductive rqtag := QData (n : Z) | QAgain | QEof | QErr.
+Inductive rres := RRData (d : list Z) | RRAgain | RREof | RRErr (e : errno).
+Inductive rqtag := QData (n : Z) | QAgain | QEof | QErr (e : errno).
 (* one entry per read call: destination index in codeBufDecode, requested size_t, result *)
 Definition rqlog := list (Z * Z * rqtag).
 
@@ -29,7 +31,7 @@ Definition reader (n : Z) (i : io) : rres * io * rqtag :=
   | [] => (RRAgain, i, QAgain)
   | RAgain :: s => (RRAgain, mkIO (io_stream i) s, QAgain)
   | REof :: s => (RREof, mkIO (io_stream i) s, QEof)
-  | RErr :: s => (RRErr, mkIO (io_stream i) s, QErr)
+  | RErr e :: s => (RRErr e, mkIO (io_stream i) s, QErr e)
   | RAvail k :: s =>
     let nret := Z.min (Z.max k 0) (Z.min (zlen (io_stream i)) n) in
     if nret <=? 0 then
@@ -39,7 +41,6 @@ Definition reader (n : Z) (i : io) : rres * io * rqtag :=
   end.
 
 (* ------------------------------------------------------------------ decoder state *)
-Inductive errno := EAGAIN | EPROTO | ECONNRESET | EIO.
 
 Record hdr := mkHdr {
   h_nread : Z; h_mask : mask; h_hlen : Z; h_plen : Z; h_opcode : Z; h_fin : Z }.
@@ -123,7 +124,7 @@ Definition hdr_read (fx : bool) (w : ws) (i : io) (n : Z) (log : rqlog) : hread 
     | Some b => HRGot (set_hd (set_buf w b) (hd_set_nread (w_hd w) (h_nread (w_hd w) + zlen d))) i' log'
     end
   | RRAgain => if fx then HRPending i' log' else HRErr EAGAIN i' log'
-  | RRErr => HRErr ECONNRESET i' log'
+  | RRErr e => HRErr e i' log'
   | RREof => HRClosed i' log'
   end.
 
@@ -316,7 +317,7 @@ Definition read_and_decode (fx : bool) (w : ws) (i : io) (log : rqlog) (len nInB
       | RRAgain =>
         if fx then DRet (w_st w) (-1) (Some EAGAIN) [] (set_wpos w1 (w_wpos w)) i' log'
         else DRet ST_ERR (-1) (Some EAGAIN) [] w1 i' log'
-      | RRErr => DRet ST_ERR (-1) (Some ECONNRESET) [] w1 i' log'
+      | RRErr e => DRet ST_ERR (-1) (Some e) [] w1 i' log'
       | RREof => DRet ST_ERR 0 None [] w1 i' log'
       | RRData d =>
         match buf_write (w_buf w1) wpos1 d with
